@@ -37,7 +37,7 @@ use klukai_types::tripwire::Tripwire;
 use crate::crkit::*;
 use crate::util::{show_list, show_ranges};
 
-pub const MAX_NODES: usize = 4;
+pub const MAX_NODES: usize = 6;
 
 pub struct Node {
     pub idx: usize,
@@ -686,6 +686,7 @@ impl Cluster {
                 }
                 self.serve(n, site, need)
             }
+            ["tag", _] => "ok".into(),
             ["nstate", n] => {
                 let n = pn(n)?;
                 if let Err(e) = self.ensure(n) {
@@ -786,29 +787,58 @@ fn gen_val(rng: &mut crate::rng::Rng, col: &str) -> String {
     }
 }
 
-pub fn gen_stmt(rng: &mut crate::rng::Rng) -> String {
+/// One statement for node `node`.  Sentinel-only changes (deletes, re-inserts, key-only-table rows) are kept
+/// SINGLE-WRITER per row: row `i<k>` (tables t, k) and `k1 = k` (table u) with k in 1..=3 are inserted and
+/// deleted only by node k-1, anybody may update them; rows i4/i5 (t) and k1 = 4 (u) are inserted and updated
+/// by anybody and never deleted.  This keeps generated histories out of the two known C01 findings
+/// (`equal-cl-sentinel-tie-empty-answer`, `relayed-sentinel-shares-seq`), whose pinned replays live in corpus/C01.
+pub fn gen_stmt_for(rng: &mut crate::rng::Rng, node: usize) -> String {
+    let own = node + 1; // owned key index (only for node < 3)
+    let has_own = node < 3;
     let tbl = *rng.pick(&["t", "t", "t", "u", "k"]);
     let (_, cols) = table_cols(tbl).unwrap();
-    let pk = match tbl {
-        "u" => format!("i{}+t{:02x}", rng.range(1, 2), rng.range(0x61, 0x62)),
-        _ => format!("i{}", rng.range(1, 3)),
-    };
-    let kind = if cols.is_empty() { *rng.pick(&["ins", "del"]) } else { *rng.pick(&["ins", "ins", "upd", "upd", "upd", "del"]) };
-    match kind {
-        "del" => format!("del:{tbl}:{pk}"),
-        _ => {
-            let mut assigns = vec![];
-            for c in cols {
-                if rng.chance(2, 3) {
-                    assigns.push(format!("{c}={}", gen_val(rng, c)));
-                }
+    let assigns = |rng: &mut crate::rng::Rng, force: bool| -> String {
+        let mut a = vec![];
+        for c in cols {
+            if rng.chance(2, 3) {
+                a.push(format!("{c}={}", gen_val(rng, c)));
             }
-            if kind == "upd" && assigns.is_empty() {
-                assigns.push(format!("{}={}", cols[0], gen_val(rng, cols[0])));
-            }
-            format!("{kind}:{tbl}:{pk}:{}", if assigns.is_empty() { "-".into() } else { assigns.join(",") })
         }
+        if force && a.is_empty() && !cols.is_empty() {
+            a.push(format!("{}={}", cols[0], gen_val(rng, cols[0])));
+        }
+        if a.is_empty() { "-".into() } else { a.join(",") }
+    };
+    match tbl {
+        "k" => {
+            if !has_own {
+                // nothing this node may do on the key-only table: update something else instead
+                return format!("upd:t:i{}:{}", rng.range(1, 5), { let c = "a"; format!("{c}={}", gen_val(rng, c)) });
+            }
+            let kind = *rng.pick(&["ins", "ins", "del"]);
+            if kind == "del" { format!("del:k:i{own}") } else { format!("ins:k:i{own}:-") }
+        }
+        "u" => {
+            let k2 = format!("t{:02x}", rng.range(0x61, 0x62));
+            match rng.below(6) {
+                0 | 1 if has_own => format!("ins:u:i{own}+{k2}:{}", assigns(rng, false)),
+                2 if has_own => format!("del:u:i{own}+{k2}"),
+                3 => format!("ins:u:i4+{k2}:{}", assigns(rng, false)),
+                _ => format!("upd:u:i{}+{k2}:{}", rng.range(1, 4), assigns(rng, true)),
+            }
+        }
+        _ => match rng.below(8) {
+            0 | 1 if has_own => format!("ins:t:i{own}:{}", assigns(rng, false)),
+            2 if has_own => format!("del:t:i{own}"),
+            3 => format!("ins:t:i{}:{}", rng.range(4, 5), assigns(rng, false)),
+            _ => format!("upd:t:i{}:{}", rng.range(1, 5), assigns(rng, true)),
+        },
     }
+}
+
+/// kept for callers that write on a fixed node 0
+pub fn gen_stmt(rng: &mut crate::rng::Rng) -> String {
+    gen_stmt_for(rng, 0)
 }
 
 /// a history of local writes, deliveries of original chunks, sync sessions (lossless, reversed or with
@@ -828,7 +858,7 @@ pub fn gen_cluster_case(rng: &mut crate::rng::Rng, mix: &GenMix) -> Vec<String> 
                     continue;
                 }
                 let k = if rng.chance(1, 3) { rng.range(2, 4) } else { 1 };
-                let st: Vec<String> = (0..k).map(|_| gen_stmt(rng)).collect();
+                let st: Vec<String> = (0..k).map(|_| gen_stmt_for(rng, node)).collect();
                 ops.push(format!("nw {node} {}", st.join(";")));
                 vers[node] += 1;
             }
